@@ -17,12 +17,24 @@ Record iobs := IO {                                        (* one instrument *)
   io_orders : list oent }.                                 (* orders *)
 Record obs := OB { ob_bal : list (option obal); ob_inst : list iobs }.
 
+(** a step of a case: an event of the model, or a persist / restore of the engine state: the
+    harness serialises every component the property covers (each AssetState, each instrument's
+    market data and Orders) to JSON, deserialises it back and continues with the restored
+    values; [same] = every restored component == the original, as decided by the
+    implementation's own PartialEq.  The model treats it as a no-op. *)
+Inductive xev := XEv (x : ev) | XPersist (same : bool).
+
 Inductive case :=
-| C9 (xs : list ev) (observed : list obs)
+| C9 (xs : list xev) (observed : list obs)
     (* an EngineState built by the public builder; every event applied through
        EngineState::update_from_account / update_from_market (in-flight requests through
-       InFlightRequestRecorder for EngineState); the state observed after each event *)
+       InFlightRequestRecorder for EngineState); the state observed after each step *)
 | C9Panic.
+
+Definition xstep9 (e : engine) (x : xev) : engine :=
+  match x with XEv y => estep9 e y | XPersist _ => e end.
+Definition evs_of (xs : list xev) : list ev :=
+  flat_map (fun x => match x with XEv y => [y] | XPersist _ => [] end) xs.
 
 Definition reg_of_obal (x : option obal) : reg balance :=
   match x with Some (OBal t a b) => Some (t, (a, b)) | None => None end.
@@ -57,6 +69,33 @@ Definition ev_cids (x : ev) : list Z :=
   | _ => []
   end.
 
+(* ---- observations compared with each other (persist / restore steps) ----------------------------- *)
+Definition obal_eqb (a b : option obal) : bool := regb_eqb (reg_of_obal a) (reg_of_obal b).
+Definition oent_eqb (a b : oent) : bool :=
+  match a, b with OE c o, OE c' o' => Z.eqb c c' && order_eqb o o' end.
+Definition iobs_eqb (a b : iobs) : bool :=
+  mdata_eqb (mdata_of a) (mdata_of b) && list_eqb oent_eqb (io_orders a) (io_orders b).
+Definition obs_eqb (a b : obs) : bool :=
+  list_eqb obal_eqb (ob_bal a) (ob_bal b) && list_eqb iobs_eqb (ob_inst a) (ob_inst b).
+
+(** check the persist steps (the round trip reported no difference and the observed state is
+    exactly the previous one; before the first observation only the report is checked) and drop
+    them: what is left is judged as before.  [None] = a persist / restore changed the engine
+    state (or the case is malformed). *)
+Fixpoint strip9 (prev : option obs) (xs : list xev) (os : list obs) : option (list ev * list obs) :=
+  match xs, os with
+  | [], [] => Some ([], [])
+  | XEv x :: xs', cur :: os' =>
+      match strip9 (Some cur) xs' os' with
+      | Some (evs, l) => Some (x :: evs, cur :: l)
+      | None => None
+      end
+  | XPersist same :: xs', cur :: os' =>
+      if same && match prev with Some p => obs_eqb p cur | None => true end
+      then strip9 prev xs' os' else None
+  | _, _ => None
+  end.
+
 (** every client order id mentioned in the case, once *)
 Definition cids_of (xs : list ev) : list Z := nodup Z.eq_dec (flat_map ev_cids xs).
 
@@ -87,13 +126,19 @@ Fixpoint corr_run (U : list Z) (nb ni : nat) (e : engine) (xs : list ev) (os : l
   | _, _ => false
   end.
 
+Definition corr_core (xs : list ev) (os : list obs) : bool :=
+  match os with
+  | [] => match xs with [] => true | _ => false end
+  | o :: _ =>
+      corr_run (cids_of xs) (length (ob_bal o)) (length (ob_inst o)) engine0 xs os
+  end.
+
 Definition corr_b (c : case) : bool :=
   match c with
   | C9 xs os =>
-      match os with
-      | [] => match xs with [] => true | _ => false end
-      | o :: _ =>
-          corr_run (cids_of xs) (length (ob_bal o)) (length (ob_inst o)) engine0 xs os
+      match strip9 None xs os with
+      | Some (evs, l) => corr_core evs l
+      | None => false
       end
   | C9Panic => false
   end.
@@ -224,10 +269,19 @@ Definition episodes_ok (U : list Z) (xs : list ev) (os : list obs) : bool :=
         (seq 0 (length (ob_inst o)))
   end.
 
+Definition prop_core (xs : list ev) (os : list obs) : bool :=
+  prop_run (cids_of xs) [] xs os && episodes_ok (cids_of xs) xs os.
+
+(** a persist / restore that changes what the engine holds (e.g. loses the sub-millisecond part
+    of a held exchange timestamp, after which a late message could pass the guards) breaks the
+    property outright *)
 Definition prop_b (c : case) : bool :=
   match c with
   | C9 xs os =>
-      prop_run (cids_of xs) [] xs os && episodes_ok (cids_of xs) xs os
+      match strip9 None xs os with
+      | Some (evs, l) => prop_core evs l
+      | None => false
+      end
   | C9Panic => false
   end.
 
